@@ -58,6 +58,15 @@ static void string_pair(const ST::string &sa, const S &a, const ST::string &sb, 
         EXPECT_EQ("compare_i:own-c_str:zero-iff-fold-equal", sa.compare_i(sa.c_str()) == 0, ac.size() == a.size(), "");
         EXPECT_EQ("compare_n:own-c_str", sgn(sa.compare_n(sa.c_str(), a.size() + 1)), wown, "");
         EXPECT_EQ("compare:self", sa.compare(sa), 0, "");
+        // the same object on both sides of every comparison
+        EXPECT_EQ("compare_i:self", sa.compare_i(sa), 0, "");
+        EXPECT_EQ("operator==:self", sa == sa, true, "");
+        EXPECT_EQ("operator!=:self", sa != sa, false, "");
+        EXPECT_EQ("operator<:self", sa < sa, false, "");
+        EXPECT_EQ("equal_i:self", ST::equal_i()(sa, sa), true, "");
+        EXPECT_EQ("less_i:self", ST::less_i()(sa, sa), false, "");
+        EXPECT_EQ("compare_n:self", sa.compare_n(sa, a.size() / 2 + 1), 0, "");
+        EXPECT_EQ("compare_ni:self", sa.compare_ni(sa, a.size() + 1), 0, "");
     }
     // case-insensitive: zero exactly for fold-equal, antisymmetric, overloads agree
     const S fa = ref::folded(a), fb = ref::folded(b);
@@ -209,6 +218,10 @@ static void buffer_pair(const char *tn, const std::basic_string<T> &a, const std
     BEQ("operator==", *ba == *bb, want == 0, "");
     BEQ("operator!=", *ba != *bb, want != 0, "");
     BEQ("operator<", *ba < *bb, want < 0, "");
+    BEQ("compare:self", ba->compare(*ba), 0, "");
+    BEQ("operator==:self", *ba == *ba, true, "");
+    BEQ("operator!=:self", *ba != *ba, false, "");
+    BEQ("operator<:self", *ba < *ba, false, "");
     BEQ("operator==(null_t) [deprecated]", *ba == ST::null_t(), a.empty(), "");
     BEQ("operator!=(null_t) [deprecated]", *ba != ST::null_t(), !a.empty(), "");
     BEQ("null_t==buffer [deprecated]", ST::null_t() == *bb, b.empty(), "");
